@@ -575,7 +575,7 @@ pub fn run_multi(ctx: &Ctx, id: &str, bins: &[&str]) -> i32 {
         if sub == "pb-runtime-merge" {
             return crate::c05::c18_replay(ctx);
         }
-        if sub == "pb-runtime-chain" || sub == "pb-runtime-fault" {
+        if sub == "pb-runtime-chain" || sub == "pb-runtime-fault" || sub == "pb-wrapper" {
             return crate::c05::c10_replay(ctx);
         }
         let bin = if sub.starts_with("proto") { bins.iter().find(|b| b.starts_with("gentp")).copied().unwrap_or("gentp") } else { "gent" };
@@ -610,7 +610,7 @@ pub fn run_multi(ctx: &Ctx, id: &str, bins: &[&str]) -> i32 {
         crate::c05::c10_runtime_part(ctx, &rec);
         rec.borrow_mut().rule = format!(" || {}", crate::c05::C10_RULE);
         if rec.borrow().violations.is_empty() {
-            if let Some(c) = crate::common::require_classes(&rec, &["runtime: chain of known groups / messages", "runtime: faulted message with a group", "runtime: faulted message with a map"]) {
+            if let Some(c) = crate::common::require_classes(&rec, &["runtime: chain of known groups / messages", "runtime: faulted message with a group", "runtime: faulted message with a map", "runtime: wrapper messages"]) {
                 code = combine(code, c);
             }
         }
